@@ -152,5 +152,6 @@ def run(ctx, report: Report) -> None:
 
     # ---- R6 ----------------------------------------------------------------------------------------------
     r6 = report.rule('C13-R6', 'language of an element: nearest lang attribute, else the content-language pragma (decision table)', floor=8)
-    from .sem import lang_table
+    from .sem import lang_logic_table, lang_table
     lang_table(ctx, r6)
+    lang_logic_table(ctx, r6)
